@@ -1,6 +1,6 @@
 (** C10 — route table maintenance follows the update, loop and cleanup rules. *)
 From Coq Require Import List NArith.
-From MM Require Import Model.RouteTable Proofs.RouteTableBase Proofs.RouteTableProofs.
+From MM Require Import Model.RouteTable Model.RouteTableSource Proofs.RouteTableBase Proofs.RouteTableProofs Proofs.RouteTableExamples Generated.C10.
 Import ListNotations.
 Local Open Scope N_scope.
 
@@ -121,3 +121,44 @@ Theorem C10_cleanup_never_removes_local : forall (local : N) {K D} eqb (t t' : t
   filtered eqb (keep_fresh local now maxage) t t' ->
   forall k x, stored eqb t k x -> e_origin x = local -> stored eqb t' k x.
 Proof. exact filtered_keeps_local. Qed.
+
+(** The agent's disconnect handler runs the four disconnect operations in a
+    row (source fact C10_source_facts): afterwards every table has lost
+    exactly the routes learned through the peer. *)
+Theorem C10_peer_disconnect_all_tables : forall (local : N) (ops : list op) (p : N),
+  let m := run local ops in
+  let m' := run local (ops ++ [ODisc p; ODDisc p; OFDisc p; OADisc p]) in
+  filtered prefix_eqb (keep_peer p) (m_cidr m) (m_cidr m') /\
+  filtered str_eqb (keep_peer p) (m_dexact m) (m_dexact m') /\
+  filtered str_eqb (keep_peer p) (m_dwild m) (m_dwild m') /\
+  filtered str_eqb (keep_peer p) (m_fwd m) (m_fwd m') /\
+  filtered N.eqb (keep_peer p) (m_agent m) (m_agent m').
+Proof. exact full_disconnect. Qed.
+Print Assumptions C10_peer_disconnect_all_tables.
+
+(** Non-vacuity: a history in which an older and an equal announcement are
+    rejected, a better one replaces, a looping path is rejected, and then
+    cleanup at the age boundary and a disconnect act as stated. Entries are
+    (origin, next hop, metric, sequence, last update). *)
+Example C10_instances :
+  cproj (run 0 ex_rule_ops) = [(0, 0, 0, 1, 0); (2, 3, 2, 1, 0); (1, 2, 3, 5, 0)] /\
+  cproj (run 0 (ex_rule_ops ++ [OClean 999])) = [(0, 0, 0, 1, 0)] /\
+  cproj (run 0 (ex_rule_ops ++ [OClean 1000])) = cproj (run 0 ex_rule_ops) /\
+  cproj (run 0 (ex_rule_ops ++ [ODisc 3])) = [(0, 0, 0, 1, 0); (1, 2, 3, 5, 0)].
+Proof. exact rule_examples. Qed.
+
+(** The facts regenerated from the four table files, manager.go and
+    agent.go on this run are the ones the model follows, in all four tables:
+    the update condition, the path check before the lock, the next-hop filter
+    of RemoveRoutesFromPeer, the keep-condition of CleanupStaleRoutes; the
+    agent table's slot; the agent's disconnect handler and cleanup loop call
+    the operation of every table; the three Process*Advertise functions add 1
+    to the metric. *)
+Theorem C10_source_facts :
+  gen_update_rule = four src_update_rule /\ gen_loop_check = four src_loop_check /\
+  gen_peer_filter = four src_peer_filter /\ gen_cleanup_rule = four src_cleanup_rule /\
+  gen_agent_slot = src_agent_slot /\
+  gen_disconnect_handler_calls = src_disconnect_calls /\ gen_cleanup_loop_calls = src_cleanup_calls /\
+  gen_advertise_increments_metric = 3%N.
+Proof. repeat split; reflexivity. Qed.
+Print Assumptions C10_source_facts.
